@@ -97,6 +97,7 @@ def gen_cases(tier, seed):
         for chunk in range(8):
             yield {"kind": "bodies", "pair": pair, "bound": BOUNDS[tier]["preempt"], "first": chunk}
     yield {"kind": "readers"}
+    yield {"kind": "joint"}
 
 
 def np_signal(si):
@@ -568,9 +569,56 @@ def history_case(case, res):
     res.sample({"history alphabet": HIST_OPS, "depth": case["depth"], "signal": SIGNALS[case["signal"]]}, 1)
 
 
+def joint_case(case, res):
+    """Two results of the SAME operation with DIFFERENT arguments evaluated in ONE graph must stay separate (no key collisions)."""
+    zn = np_signal(0)
+    shape = zn.shape
+    layout = [[shape[0]]] + [[1] * s for s in shape[1:]]
+    pairs = [
+        ("coherent, two DMs", lambda z, k: pb.coherent_dedispersion(z, catalogue._dm_for(z, [2.2, -3.1, 0.7][k]))),
+        ("coherent, DM and -DM", lambda z, k: pb.coherent_dedispersion(z, catalogue._dm_for(z, [2.2, -2.2, 2.2][k]), ref_freq=z.max_freq)),
+        ("chirp_from_signal, two DMs", lambda z, k: catalogue._dm_for(z, [2.2, 5.5, -1.0][k]).chirp_from_signal(z)),
+        ("time_shift, two shifts", lambda z, k: pb.time_shift(z, [1.5, -2.25, 0.5][k])),
+        ("freq_shift, two shifts", lambda z, k: pb.freq_shift(z, z.sample_rate * [0.125, -0.3, 0.01][k])),
+        ("snippet, two offsets", lambda z, k: pb.snippet(z, [1.5, 2.5, 0.25][k], 5)),
+        ("incoherent, two DMs", lambda z, k: pb.incoherent_dedispersion(z, catalogue._dm_for(z, [3.3, -2.6, 1.1][k]))),
+        ("signal_transform kwargs", lambda z, k: t_scale(z, k=[2, 3, 5][k])),
+    ]
+    for name, fn in pairs:
+        refs = [fn(zn, k) for k in range(3)]
+        zd = dask_signal(zn, layout)
+        outs = [fn(zd, k) for k in range(3)]
+        arrs = [o.data if isinstance(o, pb.Signal) else o for o in outs]
+        res.state(("joint", name))
+        res.traces += 1
+        for sched in ("synchronous", "threads"):
+            try:
+                got = dask.compute(*arrs, scheduler=sched)
+            except Exception as e:
+                res.violation(f"joint|{name}|raised", f"{sched}: {type(e).__name__}: {e}", case, {"pair": name})
+                continue
+            res.transitions += 1
+            for k, (g, r) in enumerate(zip(got, refs)):
+                rv = np.asarray(r.data if isinstance(r, pb.Signal) else r)
+                if g.shape != rv.shape or float(np.max(np.abs(g - rv))) > 1e-5:
+                    res.violation(f"joint|{name}|results mixed up", f"{name}: result #{k} computed together with its siblings ({sched}) "
+                                  f"differs from the NumPy result (max diff {float(np.max(np.abs(g - rv))) if g.shape == rv.shape else 'shape'})",
+                                  case, {"pair": name, "k": k})
+                    break
+        # lazy arithmetic between siblings
+        if all(isinstance(o, pb.Signal) for o in outs) and outs[0].shape == outs[1].shape:
+            s_ = (outs[0] - outs[1]).compute()
+            want = np.asarray(refs[0].data) - np.asarray(refs[1].data)
+            if float(np.max(np.abs(np.asarray(s_.data) - want))) > 1e-5:
+                res.violation(f"joint|{name}|lazy difference", f"{name}: (a - b) computed lazily differs from the NumPy difference", case,
+                              {"pair": name})
+        res.hits["siblings in one graph"] += 1
+    res.sample({"joint": [n for n, _ in pairs]}, 1)
+
+
 def check_case(case):
     res = report.Result()
-    {"layout": layout_case, "history": history_case, "orders": orders_case, "processes": processes_case, "bodies": bodies_case, "readers": readers_case}[case["kind"]](case, res)
+    {"layout": layout_case, "history": history_case, "joint": joint_case, "orders": orders_case, "processes": processes_case, "bodies": bodies_case, "readers": readers_case}[case["kind"]](case, res)
     return res
 
 
@@ -580,7 +628,7 @@ def main(argv=None):
         required_hits=["lazy, then equal after compute", "operation that raises", "layout rejected (chunked time axis)",
                        "chunked time axis accepted and correct", "task orders explored (graphs with a choice)",
                        "multiprocess scheduler", "task-body interleavings explored", "reader dask read lazy and equal",
-                       "two readers in one graph", "materialise, write in place, materialise again"],
+                       "two readers in one graph", "materialise, write in place, materialise again", "siblings in one graph"],
         assumptions=["real thread and process pools are run once per case (configurations), their internal schedules are covered only "
                      "through the controlled task-order explorer and the cooperative thread explorer (Python-line granularity in "
                      "pulsarbat's transforms/fft/utils/contrib files)", "a layout an operation rejects (FFT along a chunked axis) must "
